@@ -29,8 +29,16 @@ def model_doc(N: str) -> dict:
             N: {"type": "string"}, "other": {"type": "integer"}, "lst": {"type": "array", "items": {"$ref": "#/components/schemas/Inner"}},
             "un": {"oneOf": [{"$ref": "#/components/schemas/Inner"}, {"type": "string", "format": "date"}]}, "inner": {"$ref": "#/components/schemas/Inner"}, "when": {"type": "string", "format": "date-time"},
             "uid": {"type": "string", "format": "uuid"}, "col": {"type": "string", "enum": ["r", "g"]}},
-            "additionalProperties": {"type": "integer"}}}
+            "additionalProperties": {"type": "integer"}},
+        # additional properties that need decoding (the model template loops over the remaining keys with locals of its own)
+        "MD": {"type": "object", "properties": {N: {"type": "string"}, "other": {"type": "integer"}}, "additionalProperties": {"type": "string", "format": "date"}},
+        "MM": {"type": "object", "properties": {N: {"type": "string"}, "lst": {"type": "array", "items": {"type": "string", "format": "date"}}}, "additionalProperties": {"$ref": "#/components/schemas/Inner"}}}
     return d
+
+
+def model_instances_more(N: str) -> dict:
+    return {"/components/schemas/MD": [["extras", {N: "one", "other": 1, "x1": "2021-03-04", "x2": "2022-05-06"}, []], ["no_extras", {N: "two"}, []], ["only_extras", {"x3": "2023-01-01"}, []]],
+            "/components/schemas/MM": [["extras", {N: "one", "lst": ["2020-01-02"], "e1": {"k": "a"}, "e2": {"k": "b"}}, []], ["no_extras", {N: "two", "lst": []}, []]]}
 
 
 def model_instances(N: str) -> list:
@@ -42,6 +50,10 @@ def op_doc(N: str, loc: str, body: bool) -> dict:
     params = [{"name": N, "in": loc, "required": loc == "path", "schema": {"type": "string"}}, {"name": "other", "in": "query", "schema": {"type": "string"}}, {"name": "hh", "in": "header", "schema": {"type": "string"}},
               {"name": "cc", "in": "cookie", "schema": {"type": "string"}}, {"name": "lstq", "in": "query", "schema": {"type": "array", "items": {"type": "string", "format": "date"}}}]
     path = "/x/{%s}/y" % N if loc == "path" else "/x/y"
+    if loc == "path":
+        # a sibling placeholder whose name extends the candidate (type / typeId, in / index)
+        params.append({"name": N + "Id", "in": "path", "required": True, "schema": {"type": "string"}})
+        path += "/{%sId}" % N
     op = {"operationId": "op", "parameters": params, "responses": {"200": {"description": "ok", "content": {"application/json": {"schema": {"type": "object", "properties": {"r": {"type": "string"}}}}}}}}
     if body:
         op["requestBody"] = {"content": {"application/json": {"schema": {"type": "object", "properties": {"b": {"type": "string"}}}}}}
@@ -127,7 +139,7 @@ def main() -> int:
         out = []
         for scope, loc, body in scopes:
             if scope == "model":
-                j = run.job(model_doc(N), want=["tree"] if N == CTL else [], plan={"fn": "models_given", "args": {"instances": {"/components/schemas/M": model_instances(N)}}})
+                j = run.job(model_doc(N), want=["tree"] if N == CTL else [], plan={"fn": "models_given", "args": {"instances": {"/components/schemas/M": model_instances(N), **model_instances_more(N)}}})
             else:
                 j = run.job(op_doc(N, loc, body), want=["tree"] if N == CTL else [], plan={"fn": "c18_ops", "args": {"N": N, "loc": loc, "body": body}})
             out.append(((scope, loc, body), j))
